@@ -11,7 +11,7 @@ def expectedC13 : List (String × String) := [
   ("file:comparison.py", "c46d05a1308c92ce"),
   ("file:compat.py", "2a259e16acd200bc"),
   ("file:config.py", "142bde514c82c29d"),
-  ("file:transform/basics.py", "ef1ded632cafe787"),
+  ("file:transform/basics.py", "093d71f68c43a00a"),
   ("file:transform/headers.py", "b170f0cc5a1c0354"),
   ("file:transform/regex.py", "7acd499a0489265c"),
   ("file:transform/selects.py", "f935e8905e1e021c"),
